@@ -13,7 +13,7 @@ CONSTANTS
   Roots = {1}
   HVals = {0}
   HMod = 2
-  MaxSched = 1
+  MaxSched = 2
   MaxFired = 1
 INVARIANTS TypeOK EverySlotOfWindow OnlySlotsOfWindow JobOrder SignedOverObtainedRoot MembersIndependent AggregatorRuleExact
 CHECK_DEADLOCK FALSE
